@@ -607,3 +607,83 @@ Proof.
   rewrite app_nth2 by lia. rewrite app_nth1 by lia.
   apply (utf8_bytes_no_nl (line s l)); [exact Hvp|exact Hnl|]. apply nth_In. lia.
 Qed.
+
+(* ------------------------------------------------------------------------------------------ *)
+(* line_span / read_line cannot panic: every slice is taken at code-point boundaries inside the
+   text and no usize subtraction underflows                                                    *)
+
+Lemma is_boundary_from_app x : forall r off, is_boundary_from (x ++ r) off (off + byte_len x) = true.
+Proof.
+  induction x as [|c x IH]; intros r off.
+  - cbn [app byte_len]. destruct r; cbn [is_boundary_from]; rewrite Z.add_0_r, Z.eqb_refl; reflexivity.
+  - cbn [app byte_len is_boundary_from].
+    replace (off + (utf8_len c + byte_len x)) with (off + utf8_len c + byte_len x) by lia.
+    rewrite IH. apply orb_true_r.
+Qed.
+
+Lemma is_boundary_app x r : is_boundary (x ++ r) (byte_len x) = true.
+Proof. unfold is_boundary. apply (is_boundary_from_app x r 0). Qed.
+
+Lemma slice_mid x y z : slice (x ++ y ++ z) (byte_len x) (byte_len x + byte_len y) = Some y.
+Proof.
+  unfold slice. pose proof (byte_len_nonneg y).
+  replace (byte_len x <=? byte_len x + byte_len y) with true by (symmetry; apply Z.leb_le; lia).
+  rewrite is_boundary_app.
+  replace (is_boundary (x ++ y ++ z) (byte_len x + byte_len y)) with true.
+  - cbn [andb]. f_equal. apply substr_mid.
+  - rewrite app_assoc, <- byte_len_app. symmetry. apply is_boundary_app.
+Qed.
+
+Lemma usub_ok a b : b <= a -> usub a b = Some (a - b).
+Proof. intros H. unfold usub. replace (a <? b) with false by (symmetry; apply Z.ltb_ge; lia). reflexivity. Qed.
+
+Lemma byte_len_trim_end_le t : byte_len (trim_end t) <= byte_len t.
+Proof.
+  destruct (trim_end_spec t) as (post & H & _). rewrite H at 2. rewrite byte_len_app.
+  pose proof (byte_len_nonneg post). lia.
+Qed.
+
+Lemma byte_len_trim_start_le t : byte_len (trim_start t) <= byte_len t.
+Proof.
+  destruct (trim_start_spec t) as (pre & H & _). rewrite H at 2. rewrite byte_len_app.
+  pose proof (byte_len_nonneg pre). lia.
+Qed.
+
+Lemma line_span_res_ok s l : line_span_res s l = Some (line_span s l).
+Proof.
+  unfold line_span_res, line_span.
+  destruct (Z_le_gt_dec 0 l) as [H0|H0]; [destruct (Z_le_gt_dec l (count_nl s)) as [H1|H1]|].
+  - destruct (raw_line_decomp s l (conj H0 H1)) as (x & z & Hs & Hx & Hz).
+    assert (Hy : exists y z2, s = x ++ y ++ z2 /\
+                 raw_line_span s l = Some (byte_len x, byte_len x + byte_len y)).
+    { destruct Hz as [(Hz & _ & Hraw)|(z' & Hz & _ & Hraw)].
+      - exists (line s l), z. split; [exact Hs|]. rewrite Hraw, Hx. reflexivity.
+      - exists (line s l ++ [10]), z'. split; [rewrite Hs at 1; rewrite Hz, <- app_assoc; reflexivity|].
+        rewrite Hraw, Hx, byte_len_app. cbn [byte_len]. rewrite utf8_len_nl. f_equal. f_equal. lia. }
+    destruct Hy as (y & z2 & Hs2 & Hraw). rewrite Hraw.
+    assert (Hsl : slice s (byte_len x) (byte_len x + byte_len y) = Some y) by (rewrite Hs2 at 1; apply slice_mid).
+    assert (Hsub : substr s (byte_len x) (byte_len x + byte_len y) = y) by (rewrite Hs2 at 1; apply substr_mid).
+    rewrite Hsl, Hsub. cbv zeta.
+    pose proof (byte_len_trim_end_le y). pose proof (byte_len_trim_start_le (trim_end y)).
+    pose proof (byte_len_nonneg (trim_end y)). pose proof (byte_len_nonneg x).
+    rewrite (usub_ok (byte_len y)) by lia. rewrite !usub_ok by lia. reflexivity.
+  - rewrite raw_line_span_none by lia. reflexivity.
+  - rewrite raw_line_span_none by lia. reflexivity.
+Qed.
+
+Lemma read_line_res_ok s l : read_line_res s l = Some (read_line s l).
+Proof.
+  unfold read_line_res. rewrite line_span_res_ok.
+  destruct (Z_le_gt_dec 0 l) as [H0|H0]; [destruct (Z_le_gt_dec l (count_nl s)) as [H1|H1]|].
+  - destruct (line_span_spec s l (conj H0 H1)) as (pre & mid & post & Hp & _ & _ & _ & _ & Hspan & Hread).
+    destruct (raw_line_decomp s l (conj H0 H1)) as (x & z & Hs & Hx & _).
+    rewrite Hspan, Hread. rewrite <- Hx.
+    replace (slice s (byte_len x + byte_len pre) (byte_len x + byte_len pre + byte_len mid)) with (Some mid);
+      [reflexivity|].
+    symmetry. rewrite Hs, Hp at 1.
+    replace (x ++ (pre ++ mid ++ post) ++ z) with ((x ++ pre) ++ mid ++ (post ++ z))
+      by (rewrite <- !app_assoc; reflexivity).
+    rewrite <- byte_len_app. apply slice_mid.
+  - destruct (line_span_none s l) as [-> ->]; [lia|reflexivity].
+  - destruct (line_span_none s l) as [-> ->]; [lia|reflexivity].
+Qed.
